@@ -21,7 +21,7 @@ UNOPS = ['not', 'neg', 'isnull', 'isnotnull']
 
 INT_LITS = [0, 1, 7, 42, 2020, 10 ** 29 + 7]
 DEC_LITS = [D('0.5'), D('1.50'), D('1'), D('123456.789'), D('0.001'), D('10.0')]
-STR_LITS = ['', 'a', 'it"s' if False else "it's", 'say "hi"', 'Assets:Cash', '%', 'x y', 'AND', ';not a comment', '/* no */', '(1,2)']
+STR_LITS = ['', 'a', 'it"s' if False else "it's", 'say "hi"', 'Assets:Cash', '%', 'x y', 'AND', ';not a comment', '/* no */', '(1,2)', "it''s", 'say ""hi""', "''", '""', "a''''b", '--', "'", '"']
 DATE_LITS = [datetime.date(2020, 1, 1), datetime.date(1, 1, 1), datetime.date(9999, 12, 31), datetime.date(2024, 2, 29)]
 
 
